@@ -212,6 +212,8 @@ pub fn run(spec: &ScenarioSpec, ctx: &mut Ctx) -> Result<(), Violation> {
     back.prefix = spec.knob("reread_prefix").max(0) as u32;
     back.suffix = spec.knob("reread_suffix").max(0) as u32;
     back.pseed = spec.seed;
+    // ... and through the same kind of fragmenting stream the first read went through
+    back.mode = spec.stream.mode.clone();
     ctx.probe_if(back.prefix > 0, "written file re-read from a non-zero stream offset");
     let g2 = expect_ok(P, "slippi::read(written)", read_slp_noopts(&wbytes, &back, &[]).res)?;
     let n = cmp_games(&g1, &g2, CmpMask { frames: true, hash: false, quirks: false, start_bytes: true })
